@@ -82,6 +82,25 @@ CHECKS = {
         "Subsets are lists of distinct members (repeats via the integer encoding); UC factories only for inbred parents/nself=0 (variance itself is C12); "
         "haplotype factories only for unambiguous block layouts (C18); OCS/MGR/MEH factories have an independent kinship oracle for the molecular estimator only.",
         "DESIGN.md §3 C05"),
+    "C06": (
+        "Hypothesis-generated problems x optimiser classes; validity predicates over whatever is returned, fresh re-evaluation, O(n^2) dominance reference, brute-force optimum and exchange-neighbourhood re-scan",
+        "Harness-defined subset/integer/binary/real problems (separable and not, with inequality/equality constraints, non-arange labels) and real "
+        "EBV selection problems, every optimiser class with tiny budgets: returned decisions lie in the decision space (size, membership, distinct "
+        "members, bounds, dtypes), reported objective/constraint values equal a fresh evaluation, multi-objective results contain no dominated "
+        "member, the problem object is unchanged; SortingSubsetOptimizationAlgorithm attains the brute-force optimum over all C(n,k) subsets of "
+        "separable problems; hill-climbers are 1-exchange locally optimal under (violation, score); pymoo_addon operators keep subsets valid.",
+        "GA runs are not replay-deterministic through the public API (C08 findings); oracles are validity predicates and every violation message carries the returned arrays.",
+        "DESIGN.md §3 C06"),
+    "C07": (
+        "Hypothesis-generated decisions/populations for configuration classes and selection protocols; validity predicates, independent truncation criterion with an exact optimiser, permutation metamorphic relation",
+        "The eight configuration classes driven directly with generated decisions (shape, membership, multiplicities: even use for subsets and "
+        "binary indicators, within one of the share for real contributions, tiling law for integer counts, no pairwise exchange lowers the number "
+        "of self-pairings, cross-map rows rebuilt with itertools); EBV/GEBV subset selection with the sorting optimiser chooses exactly the top "
+        "candidates by an independently computed criterion and permuting/relabelling the population permutes the choice; ten protocol combinations "
+        "with GA optimisers: configuration decision is the reported solution and, for multi-objective runs, a non-dominated argmax of the declared "
+        "preference transformation recomputed by the harness.",
+        "No independent truncation criterion for OHV/UC/OCS (validity and consistency only); fronts where the default preference is NaN are labelled and skip only the argmax clause.",
+        "DESIGN.md §3 C07"),
     "C08": (
         "Hypothesis-generated programs of stochastic API calls; differential re-execution after re-seeding behind different histories, explicit-rng isolation with byte-wise global-stream comparison, fresh-subprocess comparison",
         "Generated programs (1..8 calls) over mating protocols, phenotyping, sampling utilities, configuration sampling, prng.spawn and "
